@@ -37,6 +37,9 @@ theorem history_persistent {α : Type} (ps : List (H.Prog α)) (s : H.Store)
 -- `C08ProjectGen.gen_project_canon` + `gen_project_semantics` / `gen_project_persistent`, `C08Guards.gen_guards_canon` + `gen_guards_semantics`.
 -- FilteredApply and the two built-in toUpper functions are regenerated (C06FApplyGen.gen_supper_semantics / gen_eupper_semantics: no element of the source's arrays is written).
 -- Aggregate is regenerated: loops in `Gen.aggregateAst` (C04LoopsGen), glue in `Gen.aggregateGlueAst` (C04GlueGen), guards in C10Guards.
-theorem tie : Tie.sameAll ["qframe.Sort"] = true := by decide
+-- `QFrame.Sort` is regenerated statement by statement in `Gen.sortAst` (sortgast.go; `withErr` / `withIndex` inlined, `qfsort.New` in `Gen.sorterNewAst`):
+-- `C03SortGlueGen.gen_sortglue_canon` + `gen_sort_glue_semantics` (`Sorter.Sort()` runs on a COPY of the index; the receiver's index array holds what it held), next to
+-- its guards (`Gen.guardAst2`, C10Guards) and its copy-then-sort tail on the heap (`Gen.projectAst`, C08ProjectGen.gen_sort_semantics / gen_project_persistent).
+theorem tie : Tie.sameAll [] = true := by decide
 
 end QF.Props.C01
